@@ -200,7 +200,16 @@ def h_expr(e, family, lo, hi, spelling='lower'):
         e.nontriv()
 
 
-def h_while(e, nested=False):
+WHILE_TESTS = {
+    'plain': '\\value{i}<\\nb',
+    'parenthesised': '\\( \\value{i}<\\nb \\)',
+    'and-group': '\\value{i}<\\nb \\and \\( 1=1 \\or 1=2 \\)',
+    'not-group': '\\not \\( \\value{i}>\\nb \\or \\value{i}=\\nb \\)',
+    'nested-groups': '\\( \\( \\value{i}<\\nb \\) \\)',
+}
+
+
+def h_while(e, nested=False, test='plain'):
     doc = _doc()
     n = e.char('n', 48, 54)
     parts = ['\\newcounter{i}\\setcounter{i}{0}\\def\\nb{', n, '}']
@@ -209,7 +218,7 @@ def h_while(e, nested=False):
         parts += ['\\newcounter{j}\\def\\mb{', m, '}',
                   '\\whiledo{\\value{i}<\\nb}{X\\setcounter{j}{0}\\whiledo{\\value{j}<\\mb}{Y\\stepcounter{j}}\\stepcounter{i}}Z']
     else:
-        parts += ['\\whiledo{\\value{i}<\\nb}{X\\stepcounter{i}}Z']
+        parts += ['\\whiledo{' + WHILE_TESTS[test] + '}{X\\stepcounter{i}}Z \\(q\\)']          # \( \) are math delimiters again after the loop
     got = _run(e, doc, parts)
     if got is None:
         return
@@ -221,7 +230,7 @@ def h_while(e, nested=False):
         e.check(got.count('Y') == N * M, 'inner loop ran %d times in total' % got.count('Y'), 'loop-count')
     else:
         e.check(got.count('X') == N, 'loop body ran %d times' % got.count('X'), 'loop-count')
-    e.check(got.endswith('Z') and got.count('Z') == 1, 'text after the loop', 'loop-tail')
+    e.check((got.endswith('Z') or got.endswith('Zq')) and got.count('Z') == 1, 'text after the loop', 'loop-tail')
     e.nontriv()
 
 
@@ -260,7 +269,8 @@ def jobs(tier, seed):
             J.append(dict(harness='h_expr', params=dict(family=family, lo=lo, hi=min(n, lo + chunk), spelling=spelling),
                           label='%s[%d:%d] %s' % (family, lo, min(n, lo + chunk), spelling)))
     fam('d2', 4)
-    J.append(dict(harness='h_while', params={}, label='whiledo'))
+    for t in WHILE_TESTS:
+        J.append(dict(harness='h_while', params=dict(test=t), label='whiledo %s' % t, no_twin=t != 'plain'))
     J.append(dict(harness='h_length', params={}, label='lengthtest', split=3))
     if tier == 'quick':
         fam('d2', 4, 'upper', stride=3)
